@@ -409,6 +409,22 @@ class Gen:
             rail = self.r.wpick([("", 3), (m.rails.get(n, ""), 2), (self.fresh_rail(m), 2)])
         return {"op": "change_comp", "name": n, "comp": spec, "group": self.group(), "rail": rail}
 
+    def op_near_limits(self, m):
+        """Replace a component by itself with limits placed around the values
+        of its last solved row (inside / outside / exactly on / negative)."""
+        if not self.last_table:
+            return None
+        cands = [n for n in m.order if n in self.last_table]
+        if not cands:
+            return None
+        n = self.r.pick(cands)
+        spec = copy.deepcopy(m.comps[n])
+        lim = self.near_limits(spec["kind"], self.last_table[n])
+        if not lim:
+            return None
+        spec["lim"] = lim
+        return {"op": "change_comp", "name": n, "comp": spec, "group": m.groups[n], "rail": m.rails[n], "note": "near_limits", "keep_conf": True}
+
     def op_del(self, m):
         cands = [n for n in m.order if not (m.kind(n) == "Source" and len(m.sources()) < 2)]
         if not cands:
